@@ -4,7 +4,7 @@
 From Coq Require Import List ZArith QArith Qround Bool.
 From PV Require Import lib.Sx lib.Str lib.Result lib.Dec.
 From PV Require Import model.TimeRead model.TimeTree spec.SpecTime spec.SpecTimeTree proofs.TimeReadFacts proofs.TimeDocFacts proofs.TimeTreeFacts.
-From PV Require Import model.XmlRead spec.SpecXmlDoc proofs.XmlReadFacts.
+From PV Require Import model.XmlRead spec.SpecXmlDocT proofs.XmlReadFacts.
 Import ListNotations.
 Open Scope Z_scope.
 
@@ -240,7 +240,7 @@ Example C01_ex_vtt_framed :
 Proof. vm_compute. reflexivity. Qed.
 
 (* ---- wave 7: DFXP documents AS TEXT ------------------------------------------------------------------------------
-   xdoc (spec/SpecXmlDoc.v) = element structure + every lexical choice (white space inside tags and between elements,
+   xdoc (spec/SpecXmlDocT.v) = element structure + every lexical choice (white space inside tags and between elements,
    quote character per attribute, begin / end / dur anywhere among the other attributes in either order, xml:lang
    anywhere, XML declaration, each character of character data literal / entity / decimal character reference).
    dfxp_read_string (model/XmlRead.v) = text -> tree (after BeautifulSoup + html.parser on this sublanguage) -> the
